@@ -4,6 +4,7 @@ open SSVerif.S3file
 #print axioms C17_get_returns_min
 #print axioms C17_plan_decides
 #print axioms C17_header_in_bounds
+#print axioms C17_sendump_rows_inside
 #print axioms C17_mdef_decides
 #print axioms C17_mdef_tables_aligned
 #print axioms C17_assembly_decides
